@@ -180,14 +180,17 @@ func (im *c07Impl) dumpReal(stream string) c07Snap {
 	sn.present = true
 	sn.leader, sn.le = p.GetLeader()
 	sn.e = p.GetEpoch()
-	sn.isr = p.GetISR()
-	sort.Strings(sn.isr)
-	sn.rep = p.GetReplicas()
-	sort.Strings(sn.rep)
+	// the in-sync set and its persisted form are read under ONE lock acquisition: they are compared with each other
 	p.mu.RLock()
+	for r := range p.isr {
+		sn.isr = append(sn.isr, r)
+	}
 	sn.pisr = append([]string(nil), p.Partition.Isr...)
 	p.mu.RUnlock()
+	sort.Strings(sn.isr)
 	sort.Strings(sn.pisr)
+	sn.rep = p.GetReplicas()
+	sort.Strings(sn.rep)
 	im.s.metadata.mu.Lock()
 	fo := im.s.metadata.partitionFailovers[p]
 	im.s.metadata.mu.Unlock()
